@@ -165,6 +165,41 @@ fn random_tree(r: &mut Rng, k: usize, nlit: usize) -> A {
     A::Bin(op, Box::new(random_tree(r, i, nlit)), Box::new(random_tree(r, k - 1 - i, nlit)))
 }
 
+/// mostly well-typed trees: `com` = the tree should denote an amount (else a bare number);
+/// one node in twenty-five ignores the discipline
+fn typed_tree(r: &mut Rng, k: usize, com: bool, p: &[Lit]) -> A {
+    if r.chance(1, 25) {
+        return random_tree(r, k, p.len());
+    }
+    if k == 0 {
+        let idx: Vec<usize> = (0..p.len()).filter(|i| p[*i].comm.is_some() == com).collect();
+        return A::Lit(*r.pick(&idx));
+    }
+    if r.chance(1, 6) {
+        return A::Neg(Box::new(typed_tree(r, k - 1, com, p)));
+    }
+    let i = r.below(k as u64) as usize;
+    let j = k - 1 - i;
+    let (op, lc, rc) = if !com {
+        (*r.pick(&OPS), false, false)
+    } else {
+        match r.below(6) {
+            0 | 1 => (Op::Add, true, true),
+            2 => (Op::Sub, true, true),
+            3 => (Op::Mul, true, false),
+            4 => (Op::Mul, false, true),
+            _ => {
+                if r.chance(2, 3) {
+                    (Op::Div, true, false)
+                } else {
+                    (Op::Div, false, true)
+                }
+            }
+        }
+    };
+    A::Bin(op, Box::new(typed_tree(r, i, lc, p)), Box::new(typed_tree(r, j, rc, p)))
+}
+
 fn count_ops_ve(v: &VE) -> usize {
     match v {
         VE::Paren(e) => count_ops(e),
@@ -622,7 +657,7 @@ pub fn run(o: &Opts) {
         let n = if o.thorough { 20000 } else { 2200 };
         for _ in 0..n {
             let k = 2 + r.below(2) as usize;
-            let a = random_tree(&mut r, k, 6);
+            let a = if r.chance(1, 3) { random_tree(&mut r, k, 6) } else { let com = r.chance(3, 4); typed_tree(&mut r, k, com, &p6) };
             if exactness(&a, &p6, true).is_some() {
                 emit(&mut cx, &mut ledger, &rctx, &embed_top(&a, &p6), "random23");
             } else {
@@ -634,7 +669,7 @@ pub fn run(o: &Opts) {
         let n = if o.thorough { 6000 } else { 500 };
         for _ in 0..n {
             let k = 4 + r.below(5) as usize;
-            let a = random_tree(&mut r, k, pw.len());
+            let a = if r.chance(1, 4) { random_tree(&mut r, k, pw.len()) } else { let com = r.chance(3, 4); typed_tree(&mut r, k, com, &pw) };
             if exactness(&a, &pw, true).is_none() {
                 cx.st.count("gen:skipped_inexact_inner_quotient");
                 continue;
